@@ -548,5 +548,6 @@ func pkiFile(name, content string) string {
 		panic(err)
 	}
 	pkiFiles[name] = p
+	simrt.VirtualFiles[p] = []byte(content)
 	return p
 }
